@@ -184,7 +184,6 @@ ValueLists == UNION {[1..n -> ItemPool] : n \in 0..1}
 AllInCases == {Case("allin", "<all-in>", <<>>, vl, a, "", "") :
                  vl \in ValueLists, a \in UNION {[1..n -> ItemPool] : n \in 1..5}}
 
-Cases == StrCases \cup InCases \cup NumCases \cup RangeCases \cup OrCases \cup AllInCases
 
 \* layouts of the token sequence (rendered by the harness):
 \*   single  one blank between tokens            double  two blanks
@@ -194,7 +193,9 @@ Cases == StrCases \cup InCases \cup NumCases \cup RangeCases \cup OrCases \cup A
 Layouts == IF Wide THEN {"single", "double", "tab", "lead", "trail", "padded", "newline", "glued"}
            ELSE {"single", "padded", "glued"}
 
-Init == c \in Cases
+\* (a disjunction, not one big union: TLC would evaluate and sort the union eagerly)
+Init == \/ c \in StrCases \/ c \in InCases \/ c \in NumCases
+        \/ c \in RangeCases \/ c \in OrCases \/ c \in AllInCases
 Next == FALSE /\ UNCHANGED vars
 Spec == Init /\ [][Next]_vars
 
